@@ -21,7 +21,7 @@ OPS = ([["op", n, b] for n in BOOL_OPS for b in (True, False)] +
         ["op", "class_aliaser_P", "k_"], ["op", "class_aliaser_P", "z_"], ["op", "order_P", -1], ["op", "order_P", 9],
         ["op", "validator_P", 3], ["op", "validator_P", 100], ["op", "dependent_required_P"],
         ["op", "serialized_P", "extra1"], ["op", "serialized_P", "extra2"],
-        ["op", "set_fields_Node_flat"], ["op", "unset_fields_Node"]])
+        ["op", "set_fields_Node_flat"], ["op", "unset_fields_Node"], ["op", "set_fields_View_lazy"], ["op", "unset_fields_View"]])
 OBS = [["obs", "deserialize", "P", {"x": 5, "y": "s"}], ["obs", "deserialize", "P", {"x": "7"}], ["obs", "deserialize", "P", {"y": "s"}],
        ["obs", "deserialize", "P", {"k_x": 1}], ["obs", "deserialize", "P", {"x": 1, "zz": 2}], ["obs", "deserialize", "P", {"someName": 1}],
        ["obs", "deserialize", "Q", {"p": {"x": 50}, "ps": [{"x": 1}]}], ["obs", "deserialize", "Q", {}],
@@ -30,7 +30,9 @@ OBS = [["obs", "deserialize", "P", {"x": 5, "y": "s"}], ["obs", "deserialize", "
        ["obs", "serialize", "P", "P0"], ["obs", "serialize", "P", "P1"], ["obs", "serialize", "Q", "Q1"], ["obs", "serialize", "Holder", "H1"],
        ["obs", "dschema", "P"], ["obs", "sschema", "P"], ["obs", "dschema", "Q"], ["obs", "dschema", "Holder"], ["obs", "sschema", "Holder"],
        ["obs", "dschema", "WithNT"], ["obs", "deserialize", "Node", {"v": 1, "next": {"v": 2, "next": {"v": 3}}}],
-       ["obs", "serialize", "Node", "N2"], ["obs", "deserialize", "Rounded", {"r": 1.5}], ["obs", "dschema", "Node"]]
+       ["obs", "serialize", "Node", "N2"], ["obs", "deserialize", "Rounded", {"r": 1.5}], ["obs", "dschema", "Node"],
+       ["obs", "deserialize", "View", {"x": 1, "y": "s"}], ["obs", "deserialize", "View", {"k_x": 1}], ["obs", "serialize", "View", "V1"],
+       ["obs", "dschema", "View"], ["obs", "sschema", "View"]]
 
 
 def run_history(hist, mode, idx):
@@ -79,6 +81,11 @@ def run(tier):
     node_obs = [o for o in OBS if o[2] == "Node"]
     for ob in node_obs:
         hists.append([["op", "set_fields_Node_flat"], ob, ["op", "unset_fields_Node"], ob])
+    # lazily given fields (a factory reading the fields of another class) follow the configuration of that class
+    view_obs = [o for o in OBS if o[2] == "View"]
+    for ob in view_obs:
+        for op2 in (["op", "set_fields_P", "x"], ["op", "class_aliaser_P", "k_"], ["op", "order_P", 9], ["op", "camel_case", True]):
+            hists.append([["op", "set_fields_View_lazy"], ob, op2, ob, ["op", "unset_fields_P"], ob])
     for b in (True, False):
         hists.append([["op", "override_ctor", b], ["obs", "deserialize", "Rounded", {"r": 1.5}], ["op", "override_ctor", not b],
                       ["obs", "deserialize", "Rounded", {"r": 1.5}]])
@@ -145,7 +152,7 @@ def run(tier):
                             dict(history=hists[i], index=k, warm=warm_obs[widx], cold=cold_obs[-1]))
     return R.finish(
         rule="histories over an alphabet of %d configuration operations (settings at the three levels, errors, base_schema, "
-             "deserializer/serializer add + reset, set_object_fields set/None, type_name, schema(), class aliaser, order "
+             "deserializer/serializer add + reset, set_object_fields set/None/lazy factory reading another class, type_name, schema(), class aliaser, order "
              "overriding, validator, dependent_required, serialized method) and %d observations (deserialize / serialize / both "
              "schemas on types sensitive to each registry): every [obs; op; obs] triple for every op, plus random histories; "
              "each history runs in a fresh interpreter warm, again with cache.reset() before every observation, and selected "
